@@ -375,8 +375,11 @@ func c16Envelope(tn, tg, sn int, msgs []c16Msg) *remote.Envelope {
 // the reference computed from env (the envelope those bytes decode to). probe: a valid frame is
 // sent afterwards and must be delivered (the node is still usable).
 func c16Check(f *wireFixture, frame []byte, env *remote.Envelope, desc string) (string, string) {
+	return c16CheckPipe(f, &remote.VerifPipe{Frames: [][]byte{frame}}, env, desc)
+}
+
+func c16CheckPipe(f *wireFixture, pipe *remote.VerifPipe, env *remote.Envelope, desc string) (string, string) {
 	f.log = f.log[:0]
-	pipe := &remote.VerifPipe{Frames: [][]byte{frame}}
 	var rerr error
 	if p := catchPanic(func() { rerr = remote.VerifRead(f.e, pipe) }); p != "" {
 		return "reader/panic-on-inbound-envelope", fmt.Sprintf("%s: streamReader.Receive panicked: %s", desc, p)
@@ -490,6 +493,121 @@ func c16Probe(f *wireFixture) (string, string) {
 		return "reader/node-unusable-after-bad-input", fmt.Sprintf("probe envelope after the bad inputs: panic=%q deliveries=%d", p, len(f.log))
 	}
 	return "", ""
+}
+
+// c16Infra: envelopes whose targets name the node's own infrastructure processes - the stream writer it
+// keeps per peer ("stream/<peer address>", a PID any peer can compute), the event stream - next to an
+// application actor and an unregistered id. Nothing may panic (reader or the addressed process's own
+// goroutine), the application actor receives exactly what names it, and nothing inbound leaves the node
+// again through the writer.
+func (we *wireEnum) c16Infra() {
+	const peer = "10.0.0.9:4000"
+	res := inWorld(func() {
+		f := newWireFixture()
+		out := &remote.VerifPipe{}
+		wpid := remote.VerifInstallWriter(f.e, peer, out)
+		vsched.Quiesce()
+		targets := []*actor.PID{wpid, actor.NewPID(wireAddr, "stream/"+peer), actor.NewPID(wireAddr, wireTargetIDs[0]), actor.NewPID(wireAddr, "nobody/1")}
+		names := []string{"writer", "writer(by name)", "app", "unregistered"}
+		type im struct{ t, s, d int }
+		var one []im
+		for t := range targets {
+			for s := 0; s < 3; s++ {
+				for d := 0; d < 2; d++ {
+					one = append(one, im{t, s, d})
+				}
+			}
+		}
+		run := func(msgs []im) {
+			env := &remote.Envelope{TypeNames: []string{tnKnown}, Targets: targets, Senders: []*actor.PID{wireSender(1), actor.NewPID(wireAddr, "stream/"+peer)}}
+			wantApp := 0
+			desc := "envelope"
+			for _, m := range msgs {
+				si := int32(m.s)
+				if m.s == 2 {
+					si = -1 // out of range
+				}
+				env.Messages = append(env.Messages, &remote.Message{Data: c16Data[[]int{0, 2}[m.d]], TargetIndex: int32(m.t), SenderIndex: si, TypeNameIndex: 0})
+				desc += fmt.Sprintf(" {target %s sender %d data %d}", names[m.t], m.s, m.d)
+			}
+			// reference: messages in front of the first one with the out-of-range sender index reach the app actor
+			for _, m := range msgs {
+				if m.s == 2 {
+					break
+				}
+				if m.t == 2 {
+					wantApp++
+				}
+			}
+			mustApp := wantApp
+			mayApp := 0
+			for _, m := range msgs {
+				if m.t == 2 {
+					mayApp++
+				}
+			}
+			frame, _ := env.MarshalVT()
+			f.log = f.log[:0]
+			sent := len(out.Frames)
+			we.rep.Evaluations++
+			we.rep.Transitions += int64(len(msgs))
+			sig, detail := "", ""
+			if p := catchPanic(func() { remote.VerifRead(f.e, &remote.VerifPipe{Frames: [][]byte{frame}}) }); p != "" {
+				sig, detail = "reader/panic-on-inbound-envelope", desc+": "+p
+			}
+			vsched.Quiesce()
+			if sig == "" && (len(f.log) < mustApp || len(f.log) > mayApp) {
+				sig, detail = "reader/wrong-deliveries-to-application-actor", fmt.Sprintf("%s: application actor received %d messages, want %d..%d", desc, len(f.log), mustApp, mayApp)
+			}
+			if sig == "" && len(out.Frames) != sent {
+				for _, fr := range out.Frames[sent:] {
+					e2 := &remote.Envelope{}
+					if e2.UnmarshalVT(fr) == nil && len(e2.Messages) > 0 {
+						sig, detail = "writer/inbound-message-sent-out-again", fmt.Sprintf("%s: the node's stream writer to %s wrote an envelope with %d messages", desc, peer, len(e2.Messages))
+					}
+				}
+			}
+			if sig != "" {
+				we.fail(sig, detail)
+			}
+			cls := fmt.Sprintf("infra msgs%d -> %s", len(msgs), map[bool]string{true: "ok", false: sig}[sig == ""])
+			if we.rep.Outcomes[cls] == 0 && len(we.rep.Samples) < 6 {
+				we.rep.Samples = append(we.rep.Samples, desc+" => "+cls)
+			}
+			we.rep.Outcomes[cls]++
+		}
+		for _, m := range one {
+			run([]im{m})
+		}
+		for _, m1 := range one {
+			for _, m2 := range one {
+				run([]im{m1, m2})
+			}
+		}
+		// the writer still does its job: an outbound delivery is written to the pipe
+		sent := len(out.Frames)
+		f.e.SendLocal(wpid, nil, nil) // a nil message for good measure
+		vsched.Quiesce()
+		env := remote.VerifDeliver(actor.NewPID(peer, "x/1"), nil, &remote.TestMessage{Data: []byte("out")})
+		f.e.SendLocal(wpid, env.Msg, nil)
+		vsched.Quiesce()
+		nout := 0
+		for _, fr := range out.Frames[sent:] {
+			e2 := &remote.Envelope{}
+			if e2.UnmarshalVT(fr) == nil {
+				nout += len(e2.Messages)
+			}
+		}
+		if nout != 1 {
+			we.fail("writer/unusable-after-hostile-input", fmt.Sprintf("after the hostile envelopes one outbound delivery put %d messages on the wire, want 1", nout))
+		}
+		if sig, detail := c16Probe(f); sig != "" {
+			we.fail(sig, detail)
+		}
+	})
+	if len(res.Panics) > 0 {
+		we.fail("engine/panic-escaped-on-engine-thread", firstLine(res.Panics[0]))
+	}
 }
 
 func c16Class(tn, tg, sn int, msgs []c16Msg, sig string) string {
@@ -654,6 +772,150 @@ func (we *wireEnum) c16Bytes() {
 	}
 }
 
+// c16Unknown: frames that carry fields the schema does not know - every wire type (varint, 64-bit, bytes,
+// start/end group, 32-bit, the two invalid ones), lengths 0 / short / truncated / 2^63-1 / overflowing,
+// groups closed, unclosed and nested - in front of, behind and inside (Message, PID) an otherwise valid
+// envelope. The decoder may accept or reject a frame; nothing may panic or hang, what it accepts is
+// checked like any other envelope, and the node stays usable.
+func (we *wireEnum) c16Unknown() {
+	huge := []byte{0xff, 0xff, 0xff, 0xff, 0xff, 0xff, 0xff, 0xff, 0x7f}  // 2^63-1
+	over := []byte{0xff, 0xff, 0xff, 0xff, 0xff, 0xff, 0xff, 0xff, 0xff, 0x01} // 2^64-1: negative as int
+	cat := func(bs ...[]byte) []byte {
+		var o []byte
+		for _, b := range bs {
+			o = append(o, b...)
+		}
+		return o
+	}
+	// unknown field number 15: tags 0x78..0x7f
+	var atoms [][]byte
+	atoms = append(atoms, []byte{0x78, 0x01}, cat([]byte{0x78}, over), []byte{0x78}) // varint, 10-byte varint, truncated
+	atoms = append(atoms, []byte{0x79, 1, 2, 3, 4, 5, 6, 7, 8}, []byte{0x79, 1, 2})     // fixed64, truncated
+	atoms = append(atoms, []byte{0x7d, 1, 2, 3, 4}, []byte{0x7d, 1})                    // fixed32, truncated
+	for _, l := range [][]byte{{0}, {1, 0x41}, {5, 0x41}, huge, over} {
+		atoms = append(atoms, cat([]byte{0x7a}, l)) // length-delimited
+	}
+	atoms = append(atoms, []byte{0x7c}, []byte{0x7e}, []byte{0x7f, 0x00}) // stray end group, invalid wire types
+	n := len(atoms)
+	for i := 0; i < n; i++ { // groups around every atom: closed, unclosed, nested twice
+		atoms = append(atoms, cat([]byte{0x7b}, atoms[i], []byte{0x7c}), cat([]byte{0x7b}, atoms[i]), cat([]byte{0x7b, 0x7b}, atoms[i], []byte{0x7c, 0x7c}))
+	}
+	atoms = append(atoms, []byte{0x7b, 0x7c}, []byte{0x7b}, []byte{0x7b, 0x7b, 0x7c})
+	tm := c16Data[0]
+	msg := &remote.Message{Data: tm, TargetIndex: 0, SenderIndex: 0, TypeNameIndex: 0}
+	mb, _ := msg.MarshalVT()
+	head := &remote.Envelope{TypeNames: []string{tnKnown}, Targets: []*actor.PID{actor.NewPID(wireAddr, wireTargetIDs[0])}, Senders: []*actor.PID{wireSender(1)}}
+	hb, _ := head.MarshalVT()
+	pidb, _ := actor.NewPID(wireAddr, wireTargetIDs[1]).MarshalVT()
+	lenPrefixed := func(tag byte, body []byte) []byte {
+		if len(body) > 127 {
+			panic("c16Unknown: body too long for a one-byte length")
+		}
+		return cat([]byte{tag, byte(len(body))}, body)
+	}
+	full := cat(hb, lenPrefixed(0x22, mb))
+	var frames [][]byte
+	var descs []string
+	for ai, a := range atoms {
+		frames = append(frames, cat(a, full), cat(full, a), cat(hb, a, lenPrefixed(0x22, mb)), cat(hb, lenPrefixed(0x22, cat(mb, a))), cat(hb, lenPrefixed(0x22, cat(a, mb))), cat(hb, lenPrefixed(0x12, cat(pidb, a)), lenPrefixed(0x22, mb)))
+		for _, w := range []string{"in front of", "behind", "inside, before the message of", "at the end of the Message of", "at the start of the Message of", "inside a target PID of"} {
+			descs = append(descs, fmt.Sprintf("unknown-field bytes #%d (% x) %s a valid envelope", ai, a, w))
+		}
+	}
+	res := inWorld(func() {
+		f := newWireFixture()
+		for i, frame := range frames {
+			if time.Now().After(we.deadline) {
+				we.rep.Exhaustive = false
+				we.rep.Note += " time cap hit in unknown-field frames;"
+				return
+			}
+			we.rep.Evaluations++
+			we.rep.Transitions++
+			dec := &remote.Envelope{}
+			var derr error
+			cls := ""
+			if p := catchPanic(func() { derr = dec.UnmarshalVT(frame) }); p != "" {
+				we.fail("decoder/panic-on-hostile-bytes", descs[i]+": "+p)
+				cls = "unknown: decoder panicked"
+			} else if derr == nil {
+				sig, detail := c16Check(f, frame, dec, descs[i])
+				if sig != "" {
+					we.fail(sig, detail)
+					cls = "unknown: decoded -> " + sig
+				} else {
+					cls = fmt.Sprintf("unknown: decoded (%d msgs) -> ok", len(dec.Messages))
+				}
+			} else {
+				cls = "unknown: rejected by decoder"
+				if p := catchPanic(func() { remote.VerifRead(f.e, &remote.VerifPipe{Frames: [][]byte{frame}}) }); p != "" {
+					we.fail("reader/panic-on-undecodable-bytes", descs[i]+": "+p)
+				}
+			}
+			if we.rep.Outcomes[cls] == 0 && len(we.rep.Samples) < 8 {
+				we.rep.Samples = append(we.rep.Samples, descs[i]+" => "+cls)
+			}
+			we.rep.Outcomes[cls]++
+		}
+		if sig, detail := c16Probe(f); sig != "" {
+			we.fail(sig, detail)
+		}
+	})
+	if len(res.Panics) > 0 {
+		we.fail("engine/panic-escaped-on-engine-thread", firstLine(res.Panics[0]))
+	}
+}
+
+// c16Values: Envelope VALUES that no byte string decodes to - nil entries in the target, sender and message
+// tables - handed to the real streamReader.Receive directly (the quantifier of C16 is over all Envelope
+// values, whatever encoding produced them).
+func (we *wireEnum) c16Values() {
+	t0, t1 := actor.NewPID(wireAddr, wireTargetIDs[0]), actor.NewPID(wireAddr, wireTargetIDs[1])
+	s1 := wireSender(1)
+	targetTabs := [][]*actor.PID{{t0}, {nil}, {t0, nil}, {nil, t1}}
+	senderTabs := [][]*actor.PID{{}, {s1}, {nil}, {s1, nil}, {nil, s1}}
+	mk := func(ti, si int32) *remote.Message {
+		return &remote.Message{Data: c16Data[0], TargetIndex: ti, SenderIndex: si, TypeNameIndex: 0}
+	}
+	var msgTabs [][]*remote.Message
+	for ti := int32(0); ti < 2; ti++ {
+		for si := int32(0); si < 2; si++ {
+			msgTabs = append(msgTabs, []*remote.Message{mk(ti, si)}, []*remote.Message{mk(0, 0), mk(ti, si)}, []*remote.Message{mk(ti, si), mk(0, 0)}, []*remote.Message{nil, mk(ti, si)}, []*remote.Message{mk(ti, si), nil})
+		}
+	}
+	msgTabs = append(msgTabs, []*remote.Message{nil}, []*remote.Message{})
+	res := inWorld(func() {
+		f := newWireFixture()
+		for tti, tt := range targetTabs {
+			for sti, st := range senderTabs {
+				for mti, mt := range msgTabs {
+					for _, tn := range [][]string{{tnKnown}, nil} {
+						env := &remote.Envelope{TypeNames: tn, Targets: tt, Senders: st, Messages: mt}
+						desc := fmt.Sprintf("envelope value: typeNames=%v target table #%d %v sender table #%d %v messages #%d", tn, tti, tt, sti, st, mti)
+						we.rep.Evaluations++
+						we.rep.Transitions += int64(len(mt))
+						sig, detail := c16CheckPipe(f, &remote.VerifPipe{Values: []*remote.Envelope{env}}, env, desc)
+						if sig != "" {
+							we.fail(sig, detail)
+						}
+						cls := fmt.Sprintf("values: targets#%d senders#%d msgs%d types%d -> %s", tti, sti, len(mt), len(tn), map[bool]string{true: "ok", false: sig}[sig == ""])
+						if we.rep.Outcomes[cls] == 0 && len(we.rep.Samples) < 6 {
+							we.rep.Samples = append(we.rep.Samples, desc+" => "+cls)
+						}
+						we.rep.Outcomes[cls]++
+					}
+				}
+			}
+		}
+		if sig, detail := c16Probe(f); sig != "" {
+			we.fail(sig, detail)
+		}
+	})
+	if len(res.Panics) > 0 {
+		we.fail("engine/panic-escaped-on-engine-thread", firstLine(res.Panics[0]))
+	}
+}
+
 func init() {
 	_ = sort.Strings
 	// ---- C15
@@ -694,6 +956,15 @@ func init() {
 				we.c16Structured(small, []int{0, 1}, 2)
 			}
 		})})
+	Register(&Job{Name: "C16/envelopes/infrastructure-targets", Prop: "C16", Kind: "direct", Family: "regression:D27 (fixed)", Budget: 50, BudgetT: 300,
+		Desc: "envelopes of 1-2 valid messages (valid/empty payload, sender valid / the writer itself / out of range) addressed to the node's own stream writer for the sending peer (registered as stream/<peer>, real streamWriter behind its real inbox), to an application actor and to an unregistered id: no panic in the reader or on the writer's goroutine, the application actor gets what names it, nothing inbound is written out again, the writer still works afterwards",
+		Run: wireRun(func(we *wireEnum, tier string) { we.c16Infra() })})
+	Register(&Job{Name: "C16/envelopes/values-with-nil-entries", Prop: "C16", Kind: "direct", Budget: 50, BudgetT: 300,
+		Desc: "Envelope values that no byte string decodes to: nil entries in the target table, the sender table and the message list (4 x 5 x 22 tables, with and without type names), handed to streamReader.Receive directly: no panic, deliveries only as named by valid indices, node usable afterwards",
+		Run: wireRun(func(we *wireEnum, tier string) { we.c16Values() })})
+	Register(&Job{Name: "C16/bytes/unknown-fields", Prop: "C16", Kind: "direct", Budget: 50, BudgetT: 300,
+		Desc: "fields the schema does not know, of every wire type (varint, 64-bit, bytes with length 0/1/truncated/2^63-1/overflowing, start and end group, 32-bit, the two invalid types), bare, inside a closed, an unclosed and a doubly nested group, placed in front of, behind and inside (Envelope, Message, PID) a valid envelope: the decoder neither panics nor hangs, what it accepts is checked like any envelope, the node stays usable",
+		Run: wireRun(func(we *wireEnum, tier string) { we.c16Unknown() })})
 	Register(&Job{Name: "C16/bytes/mutations", Prop: "C16", Kind: "direct", Budget: 50, BudgetT: 300,
 		Desc: "7 seed encodings: every proper prefix, every single-byte deletion, every single-byte substitution from {00,01,7f,80,ff,b+1,b-1} at every offset; whatever UnmarshalVT accepts goes on to streamReader.Receive",
 		Run: wireRun(func(we *wireEnum, tier string) { we.c16Bytes() })})
